@@ -72,6 +72,9 @@ def hostname(k):
 MARKER_AGE = 3600.0     # seconds: every marker is created with an mtime one hour in the past
 
 
+COARSE_NS = 1_700_000_000 * 10 ** 9
+
+
 class MarkerLock:
     """non-blocking stand-in for filelock.SoftFileLock: the marker file IS the lock.
 
@@ -408,6 +411,14 @@ class ClusterSuite(Suite):
             x = handles.get(h) if h is not None else None
             before_raw = raw_files(out)
             before = parse_disk(out)
+            # a filesystem with coarse timestamps on which every write so far fell into one tick: the four state files
+            # always show the same modification time when a call starts.  What a handle may trust is the CONTENT of the
+            # version files, never their metadata.
+            for fn in ("cluster_config.json", "job_status.json", "config_version.txt", "job_status_version.txt"):
+                try:
+                    os.utime(out / fn, ns=(COARSE_NS, COARSE_NS))
+                except OSError:
+                    pass
             MarkerLock.events = []
             o = {"k": k, "h": h, "crash": crash, "wrap": kind if kind in WRAPS or kind == "stallEnd" else None, "eff": eff,
                  "parked_before": sorted(self._parked), "resumed": kind == "stallEnd" and k != "noStall", "faulted_before": faulted,
